@@ -315,22 +315,83 @@ def gen_pct_case(rs, thorough, fk=None):
 # running the implementation
 
 
+# Work buffers re-used across calls: a script that analyses one field after another in the same array (`buf[...] = next`,
+# `f *= 4`, a running mean) hands the SAME memory with OTHER contents to consecutive calls.  C-contiguous inputs are
+# therefore copied into one persistent buffer per (role, shape, dtype) before the call; the previous contents travel with
+# the case (hint / replay), and the buffer is compared with the input afterwards (the functions must not edit their inputs).
+_BUF = {}
+
+
+def _via_buffer(role, a, case, tag):
+    np = _impl()[0]
+    a = np.asarray(a)
+    if not (a.flags["C_CONTIGUOUS"] and a.ndim >= 1 and a.size > 0 and not case.get("_no_buffer")):
+        return a, None
+    key = (role, a.shape, a.dtype.str)
+    buf = _BUF.get(key)
+    if buf is None:
+        buf = _BUF[key] = np.empty(a.shape, dtype=a.dtype)
+        prev = None
+    else:
+        prev = buf.copy()
+    if case.get("_previous_" + tag) is not None:
+        prev = np.array(case["_previous_" + tag], dtype=a.dtype).reshape(a.shape)
+        buf[...] = prev
+    case["_prev_seen_" + tag] = None if prev is None else prev.tolist()
+    buf[...] = a
+    return buf, a
+
+
+def _edited(buf, orig):
+    np = _impl()[0]
+    return orig is not None and not np.array_equal(buf, orig, equal_nan=True)
+
+
 def run_gsa(case):
     np, U, _ = _impl()
-    f, g = case["f"], case["g"]
+    f, f0 = _via_buffer("gsa_f", case["f"], case, "f")
+    g, g0 = _via_buffer("gsa_g", case["g"], case, "g")
+    if case.get("_previous_f") is not None or case.get("_previous_g") is not None:
+        # replay of a history: first the call on the previous contents of the same buffers
+        try:
+            pf = np.array(case["_previous_f"], dtype=f.dtype).reshape(f.shape) if case.get("_previous_f") is not None else f0
+            pg = np.array(case["_previous_g"], dtype=g.dtype).reshape(g.shape) if case.get("_previous_g") is not None else g0
+            if f0 is not None:
+                f[...] = pf
+            if g0 is not None:
+                g[...] = pg
+            U.get_source_area(f, g)
+        except Exception:
+            pass
+        if f0 is not None:
+            f[...] = f0
+        if g0 is not None:
+            g[...] = g0
     try:
         r = U.get_source_area(f, g)
     except Exception as e:  # the property has no error outcome for equal-size inputs
         return None, "raised %s: %s" % (type(e).__name__, e)
-    return r, None
+    if _edited(f, f0) or _edited(g, g0):
+        return None, "get_source_area edited its input array in place"
+    return np.array(r, copy=True), None
 
 
 def run_pct(case):
     np, _, epc = _impl()
+    flx, flx0 = _via_buffer("pct_flx", case["flx"], case, "flx")
+    if case.get("_previous_flx") is not None and flx0 is not None:
+        try:
+            flx[...] = np.array(case["_previous_flx"], dtype=flx.dtype).reshape(flx.shape)
+            epc(flx, case["grid"], case["pct"], case["level"])
+        except Exception:
+            pass
+        flx[...] = flx0
     try:
-        lev, area = epc(case["flx"], case["grid"], case["pct"], case["level"])
+        lev, area = epc(flx, case["grid"], case["pct"], case["level"])
     except Exception as e:
         return None, "raised %s: %s" % (type(e).__name__, e)
+    if _edited(flx, flx0):
+        return None, "extract_percentile_contour edited its input array in place"
     return (lev, area), None
 
 
@@ -339,10 +400,12 @@ def case_hint(case):
     if case["kind"] == "gsa":
         return {"kind": "gsa", "layout": case.get("layout", "CC"), "f": np.asarray(case["f"]).tolist(), "g": np.asarray(case["g"]).tolist(),
                 "f_dtype": str(np.asarray(case["f"]).dtype), "g_dtype": str(np.asarray(case["g"]).dtype),
-                "fk": case["fk"], "gk": case["gk"]}
+                "fk": case["fk"], "gk": case["gk"],
+                "previous_contents_of_the_same_buffers": {"f": case.get("_prev_seen_f"), "g": case.get("_prev_seen_g")}}
     return {"kind": "pct", "flx": np.asarray(case["flx"]).tolist(),
             "grid": [np.asarray(a).tolist() for a in case["grid"]], "level": case["level"], "pct": case["pct"],
-            "gridkind": case["gridkind"], "fk": case["fk"]}
+            "gridkind": case["gridkind"], "fk": case["fk"],
+            "previous_contents_of_the_same_buffers": {"flx": case.get("_prev_seen_flx")}}
 
 
 def case_from_hint(h):
@@ -355,10 +418,13 @@ def case_from_hint(h):
             f = np.asfortranarray(f)
         if lay[1] == "F":
             g = np.asfortranarray(g)
-        return {"kind": "gsa", "fk": h.get("fk", "?"), "gk": h.get("gk", "?"), "f": f, "g": g, "info": {"base": None}, "layout": lay}
+        prev = h.get("previous_contents_of_the_same_buffers") or {}
+        return {"kind": "gsa", "fk": h.get("fk", "?"), "gk": h.get("gk", "?"), "f": f, "g": g, "info": {"base": None}, "layout": lay,
+                "_previous_f": prev.get("f"), "_previous_g": prev.get("g")}
+    prev = h.get("previous_contents_of_the_same_buffers") or {}
     return {"kind": "pct", "fk": h.get("fk", "?"), "flx": np.array(h["flx"], dtype=float),
             "grid": tuple(np.array(a, dtype=float) for a in h["grid"]), "level": h["level"], "pct": h["pct"],
-            "gridkind": h.get("gridkind", "?")}
+            "gridkind": h.get("gridkind", "?"), "_previous_flx": prev.get("flx")}
 
 
 # ---------------------------------------------------------------------------------------------
